@@ -134,8 +134,8 @@ func SubByDisplay(s string, length int) string {
 		return s
 	}
 
-	var dpl, end int
-	for _, v := range s {
+	var dpl int
+	for i, v := range s {
 		if v < utf8.RuneSelf {
 			dpl += 1
 		} else {
@@ -143,12 +143,12 @@ func SubByDisplay(s string, length int) string {
 		}
 
 		if dpl > length {
-			break
+			// cut at the start of the first rune that does not fit (i is a byte offset in s,
+			// also for invalid bytes, which decode as U+FFFD but are one byte wide)
+			return s[:i]
 		}
-
-		end += utf8.RuneLen(v)
 	}
-	return s[:end]
+	return s
 }
 
 // RemoveRunes removes the specified characters from the string
